@@ -39,6 +39,11 @@ def gen(seed, tier):
     if ov and r.random() < 0.5:
         w["target"] = r.choice(ov)
         w["stored"] = {k: v for k, v in w["stored"].items() if k != w["target"]}
+        # the capacity rule ("above the largest lag") depends on the target: re-apply it
+        from .. import gen as G
+        if w["cfg"]["processor"] == "threaded_mailbox" and G.reconvergent(spec, w["target"]) \
+                and G.has_lag(spec, w["target"], w["stored"]):
+            w["cfg"]["max_messages"] = 10_000
     w["sibling_check"] = nb[w["target"]]["kind"] == "overlapm"
     return w
 
